@@ -143,6 +143,7 @@ def check_case(case, acc, d):
         if len(ds) != len(ts):
             bad("decoy-length", "decoy length differs from its target", ts, ds)
             continue
+        acc.count("decoys_differing_from_target" if ds != ts else "decoys_equal_to_target")
         if sorted(ds) != sorted(ts):
             bad("decoy-composition", "decoy residue composition differs from its target", ts, ds)
         if kr_sites(ds) != kr_sites(ts):
@@ -229,7 +230,7 @@ def run(ctx):
         b = dict(single_full=7, single_lite=8, pair_alpha="ACK", pair_len=5, two_len=3, three_len=1,
                  format_len=3, wrap=[69, 70, 71, 139, 140, 141, 210, 211])
     else:
-        b = dict(single_full=9, single_lite=10, pair_alpha="ACKR", pair_len=5, two_len=4, three_len=2,
+        b = dict(single_full=9, single_lite=9, pair_alpha="ACKR", pair_len=5, two_len=4, three_len=2,
                  format_len=5, wrap=list(range(60, 216)))
     items = []
     for L in range(0, b["single_lite"] + 1):
